@@ -534,6 +534,107 @@ theorem onColumn_protect_struct_in_text (c : CryptoOps) (hs : SealLaws c) (hsl :
   rw [h, hsc]
   simp [ScanOut.prepend]
 
+/-! ## totality and sizes (these discharge the explicit length hypotheses above under `SealLen`) -/
+
+/-- Under the length law of the AEAD an AcraBlock is exactly 138 bytes longer than its message
+(18 header + 76 wrapped data key + 44 seal overhead), and the wrapped data key has 76 bytes – so the
+explicit length hypotheses of `block_roundtrip` hold. -/
+theorem block_sizes (c : CryptoOps) (hs : SealLaws c) (hsl : SealLen c) (key ctx m rnd b : Bytes)
+    (hkid : (keyId c key ctx).length = 2) (hc : createBlock c key ctx m rnd = .ok b) :
+    b.length = m.length + 138 ∧ m.length < 2^32 ∧
+    ∀ encKey, c.enc key ctx (rnd.take 32) ((rnd.drop 44).take 12) = some encKey → encKey.length = 76 := by
+  obtain ⟨encData, encKey, h1, h2, rfl⟩ := c01_createBlock_ok hc
+  have hn : ¬ (rnd.take 32 = [] ∨ key = [] ∨ ((rnd.drop 44).take 12).length ≠ nonceLen ∨ maxMsgLen ≤ (rnd.take 32).length) := by
+    intro hcon
+    have := (hs.enc_none key ctx (rnd.take 32) ((rnd.drop 44).take 12)).mpr hcon
+    rw [h2] at this; cases this
+  have hm : ¬ (m = [] ∨ rnd.take 32 = [] ∨ ((rnd.drop 32).take 12).length ≠ nonceLen ∨ maxMsgLen ≤ m.length) := by
+    intro hcon
+    have := (hs.enc_none (rnd.take 32) ctx m ((rnd.drop 32).take 12)).mpr hcon
+    rw [h1] at this; cases this
+  simp only [not_or, Decidable.not_not, Nat.not_le] at hn hm
+  have hr : 56 ≤ rnd.length := by
+    have h := hn.2.2.1
+    rw [List.length_take, List.length_drop] at h
+    have : nonceLen = 12 := rfl
+    omega
+  have hso : sealOverhead = 44 := rfl
+  have hdek : (rnd.take 32).length = 32 := by rw [List.length_take]; omega
+  have hek : ∀ ek, c.enc key ctx (rnd.take 32) ((rnd.drop 44).take 12) = some ek → ek.length = 76 := by
+    intro ek h
+    rw [hsl.enc_len _ _ _ _ _ h, hdek, hso]
+  refine ⟨?_, hm.2.2.2, hek⟩
+  rw [c01_buildBlock_length _ _ _ hkid, hek _ h2, hsl.enc_len _ _ _ _ _ h1, hso]
+  omega
+
+/-- `protect` with the AcraBlock handler succeeds for every non-empty value below 4 GiB when the
+client has a (non-empty) current symmetric key and the random source delivers 56 bytes. -/
+theorem protect_block_total (c : CryptoOps) (hs : SealLaws c) (kv : KeyView) (key m rnd : Bytes)
+    (hW : kv.sym = some key) (hkey : key ≠ []) (hm : m ≠ []) (hml : m.length < maxMsgLen) (hr : 56 ≤ rnd.length) :
+    ∃ p, protect c kv .block m rnd = .ok p := by
+  by_cases hmatch : matchKind .block m = true ∨ registryMatch m = true
+  · exact ⟨m, c01_protect_of_match c kv .block m rnd hmatch⟩
+  · have hnm : matchKind .block m = false := by
+      cases h : matchKind .block m with
+      | false => rfl
+      | true => exact absurd (Or.inl h) hmatch
+    have hnr : registryMatch m = false := by
+      cases h : registryMatch m with
+      | false => rfl
+      | true => exact absurd (Or.inr h) hmatch
+    obtain ⟨b, hb⟩ := block_create_total c hs key [] m rnd hkey hm hml hr
+    obtain ⟨encData, encKey, _, _, hbb⟩ := c01_createBlock_ok hb
+    have hbne : b ≠ [] := by
+      rw [hbb]; unfold buildBlock
+      intro h
+      have := congrArg List.length h
+      simp [c01_blockTag_length] at this
+    refine ⟨serBytes b Kind.block.id, ?_⟩
+    unfold protect encryptKind
+    simp only [hnm, hnr, hW, hb, Bool.or_self, Bool.false_eq_true, if_false, Out.bind_ok]
+    exact c01_serialize_eq _ hbne
+
+/-- Under `SealLen` the container `protect` produces for an unprotected value with the AcraBlock
+handler is exactly 150 bytes longer than the value. -/
+theorem protect_block_length (c : CryptoOps) (hs : SealLaws c) (hsl : SealLen c) (kv : KeyView) (key m rnd p : Bytes)
+    (hW : kv.sym = some key) (hkid : (keyId c key []).length = 2)
+    (hnm : matchKind .block m = false) (hnr : registryMatch m = false)
+    (hp : protect c kv .block m rnd = .ok p) : p.length = m.length + 150 ∧ m.length < 2^32 := by
+  obtain ⟨e, he, _, rfl⟩ := c01_protect_ok hp hnm hnr
+  obtain ⟨key', hk', hcb⟩ := c01_encryptKind_block he hnm
+  rw [hW] at hk'; cases hk'
+  obtain ⟨hl, hm, _⟩ := block_sizes c hs hsl key [] m rnd e hkid hcb
+  rw [c01_serBytes_length, hl]
+  exact ⟨by omega, hm⟩
+
+/-- `protect` with the AcraStruct handler succeeds for every non-empty value below 4 GiB when the
+client has a well-formed public key and the random source delivers 88 bytes. -/
+theorem protect_struct_total (c : CryptoOps) (hs : SealLaws c) (hm : MsgLaws c) (hk : KeygenLaws c)
+    (kv : KeyView) (priv m rnd : Bytes) (hpriv : c.validPriv priv = true)
+    (hW : kv.pub = some (c.pubOf priv)) (hne : m ≠ []) (hml : m.length < maxMsgLen) (hr : 88 ≤ rnd.length) :
+    ∃ p, protect c kv .struct m rnd = .ok p := by
+  by_cases hmatch : matchKind .struct m = true ∨ registryMatch m = true
+  · exact ⟨m, c01_protect_of_match c kv .struct m rnd hmatch⟩
+  · have hnm : matchKind .struct m = false := by
+      cases h : matchKind .struct m with
+      | false => rfl
+      | true => exact absurd (Or.inl h) hmatch
+    have hnr : registryMatch m = false := by
+      cases h : registryMatch m with
+      | false => rfl
+      | true => exact absurd (Or.inr h) hmatch
+    obtain ⟨s, hsc⟩ := struct_create_total c hs hm hk priv [] m rnd hpriv hne hml hr
+    obtain ⟨encKey, encData, _, _, hss⟩ := c01_createStruct_ok hsc
+    have hsne : s ≠ [] := by
+      rw [hss]
+      intro h
+      have := congrArg List.length h
+      simp [c01_structTag_length] at this
+    refine ⟨serBytes s Kind.struct.id, ?_⟩
+    unfold protect encryptKind
+    simp only [hnm, hnr, hW, hsc, Bool.or_self, Bool.false_eq_true, if_false, Out.bind_ok]
+    exact c01_serialize_eq _ hsne
+
 /-! ## the empty value -/
 
 /-- The empty byte string is not a protected value for any handler … -/
